@@ -1,7 +1,18 @@
 (* Model/KnownC01.v - Known_C01: the computable classes of (base, input) on which the pinned code is
    known to deviate from the WHATWG URL Standard (DESIGN.md section 9; known_findings.json).
-   Deliberately broad, by mechanism.  The same predicate exists in the harness (c01.rs known_c01);
-   the two are compared on every differential case.  Definitions only. *)
+     class 1  the file scheme is involved (the scheme of the input, or of the base of a scheme-less input
+              that is not empty and does not start with '?' or '#');
+     class 2  a ".." (in any spelling) meets a drive-letter-shaped last segment in the path the Standard's
+              path state builds (F-C01-9: parser.rs never pops such a segment, in any scheme);
+     class 3  authority of a non-special URL: a port number <= 65535 directly followed by '\' (F-C01-8);
+     class 4  authority of a non-special URL that is exactly ":@" (F-C01-12).
+   Classes 2-4 are the EXACT exclusions of the proved class theorems of C01, computed on the raw text, cut
+   the way the Standard's states cut it (Proofs/C01_KnownExact.v: equal to the recognisers on the
+   Standard's side).  `known_c01_broad` is the former, deliberately broad predicate (a drive-letter-shaped
+   piece anywhere / a backslash anywhere in non-special input / ":@" anywhere); Proofs/C01_EqCover.v shows
+   known_c01_broad = 0 -> known_c01 = 0.
+   The same predicate exists in the harness (harness/src/known01.rs); the two are compared on every
+   differential case.  Definitions only. *)
 From RU Require Import Base.Prelude Model.HostT Model.UrlRecord Model.Parser.
 
 Definition cleaned (input : list N) : list N :=
@@ -48,8 +59,9 @@ Fixpoint has_colon_at (t : list N) : bool :=
 
 Definition is_special_scheme_name (s : list N) : bool := st_is_special (scheme_type_of s).
 
-(* 0 = not known; 1..4 = class *)
-Definition known_c01 (base : option url) (input : list N) : N :=
+(* ---------------------------------------------------------------------------------------------
+   the former broad predicate: 0 = not known; 1..4 = class *)
+Definition known_c01_broad (base : option url) (input : list N) : N :=
   let t := cleaned input in
   let sch := leading_scheme t in
   let bscheme := match base with Some b => Some (b_scheme b) | None => None end in
@@ -64,3 +76,167 @@ Definition known_c01 (base : option url) (input : list N) : N :=
   else if negb (is_special_scheme_name eff) && memb 92 t then 3
   else if has_colon_at t then 4
   else 0.
+
+(* ---------------------------------------------------------------------------------------------
+   the exact classes.  `sp` = the scheme is special: '\' ends the authority and separates segments *)
+
+(* end of the authority: '/', '?', '#' and, for special schemes, '\' *)
+Definition k_ae (sp : bool) (c : N) : bool := (c =? 47) || (c =? 63) || (c =? 35) || (sp && (c =? 92)).
+Definition k_sl (c : N) : bool := (c =? 47) || (c =? 92).
+Definition k_qh (c : N) : bool := (c =? 63) || (c =? 35).
+Definition k_sep (sp : bool) (c : N) : bool := (c =? 47) || (sp && (c =? 92)).
+
+(* --- the path state on the raw text: one flag per segment (drive-letter-shaped or not), buffer B --- *)
+Definition k_wdl (s : list N) : bool := starts_with_wdl (s ++ [47]).
+Definition k_last (W : list bool) : bool := match rev W with b :: _ => b | [] => false end.
+Definition k_fin_ok (W : list bool) (B : list N) : bool := negb (is_double_dot B && k_last W).
+Definition k_fin (W : list bool) (B : list N) (sep : bool) : list bool :=
+  if is_double_dot B then (if sep then removelast W else removelast W ++ [false])
+  else if is_single_dot B then (if sep then W else W ++ [false])
+  else W ++ [k_wdl B].
+(* no ".." of the text (up to '?' / '#') meets a drive-letter-shaped last segment *)
+Fixpoint k_path_ok (sp : bool) (t : list N) (W : list bool) (B : list N) : bool :=
+  match t with
+  | [] => k_fin_ok W B
+  | c :: r => if k_sep sp c then k_fin_ok W B && k_path_ok sp r (k_fin W B true) []
+              else if k_qh c then k_fin_ok W B
+              else k_path_ok sp r W (B ++ [c])
+  end.
+
+(* --- the authority, cut as the authority / host / port states cut it --- *)
+Fixpoint k_apart (sp : bool) (t : list N) : list N :=
+  match t with [] => [] | c :: r => if k_ae sp c then [] else c :: k_apart sp r end.
+Fixpoint k_arest (sp : bool) (t : list N) : list N :=
+  match t with [] => [] | c :: r => if k_ae sp c then t else k_arest sp r end.
+(* cut at the LAST '@' *)
+Fixpoint k_last_at (t : list N) : option (list N * list N) :=
+  match t with
+  | [] => None
+  | c :: r => match k_last_at r with
+              | Some (w, h) => Some (c :: w, h)
+              | None => if c =? 64 then Some ([], r) else None
+              end
+  end.
+(* the text the host state starts on: behind the last '@' of the authority, if there is one *)
+Definition k_after_at (sp : bool) (T : list N) : list N :=
+  match k_last_at (k_apart sp T) with
+  | Some (_, h) => h ++ k_arest sp T
+  | None => T
+  end.
+Definition k_br_next (br : bool) (c : N) : bool := if c =? 91 then true else if c =? 93 then false else br.
+Definition k_hstop (sp br : bool) (c : N) : bool := ((c =? 58) && negb br) || k_ae sp c.
+(* from the character that ends the host: ':' outside brackets or the end of the authority *)
+Fixpoint k_hrest (sp br : bool) (t : list N) : list N :=
+  match t with
+  | [] => []
+  | c :: r => if k_hstop sp br c then t else k_hrest sp (k_br_next br c) r
+  end.
+Fixpoint k_digits (t : list N) : list N :=
+  match t with [] => [] | c :: r => if is_digit c then c :: k_digits r else [] end.
+Fixpoint k_after_digits (t : list N) : list N :=
+  match t with [] => [] | c :: r => if is_digit c then k_after_digits r else t end.
+Definition k_dec (s : list N) : N := fold_left (fun a d => a * 10 + (d - 48)) s 0.
+(* (the digits of the port if a ':' ends the host, the text the path start state sees) *)
+Definition k_port_cut (sp : bool) (T : list N) : option (list N) * list N :=
+  match k_hrest sp false (k_after_at sp T) with
+  | c :: r => if c =? 58 then (Some (k_digits r), k_after_digits r) else (None, c :: r)
+  | [] => (None, [])
+  end.
+
+(* the text T after "//" of a non-special URL: classes 2, 3, 4 *)
+Definition k_auth (T : list N) : N :=
+  let d := fst (k_port_cut false T) in
+  let X := snd (k_port_cut false T) in
+  if match X with c :: r => (c =? 47) && negb (k_path_ok false r [] []) | [] => false end then 2
+  else if match d with
+          | Some ds => (k_dec ds <=? 65535) && match X with c :: _ => c =? 92 | [] => false end
+          | None => false
+          end then 3
+  else if list_eqb (k_apart false T) [58; 64] then 4
+  else 0.
+
+Fixpoint k_drop_sl (t : list N) : list N :=
+  match t with [] => [] | c :: r => if k_sl c then k_drop_sl r else t end.
+(* the text R after "sch:" of a special URL (any number of leading '/' '\'): class 2 *)
+Definition k_special (R : list N) : N :=
+  let X := snd (k_port_cut true (k_drop_sl R)) in
+  let starts := match X with [] => true | c :: _ => k_ae true c end in
+  let pt := match X with c :: r => if k_sl c then r else X | [] => [] end in
+  if starts && negb (k_path_ok true pt [] []) then 2 else 0.
+
+(* the segments of a serialized path "/s1/s2/..." *)
+Fixpoint k_split_from (cur p : list N) : list (list N) :=
+  match p with
+  | [] => [cur]
+  | c :: r => if c =? 47 then cur :: k_split_from [] r else k_split_from (cur ++ [c]) r
+  end.
+(* the flags of the segments of the base path without the last segment *)
+Definition k_base_stack (b : url) : list bool :=
+  match path b with
+  | Some (c :: r) => if c =? 47 then removelast (map k_wdl (k_split_from [] r)) else []
+  | _ => []
+  end.
+Definition k_cbb (b : url) : bool := match cannot_be_a_base b with Some true => true | _ => false end.
+Definition k_bad (ok : bool) : N := if ok then 0 else 2.
+Definition k_two_sl (R : list N) : bool := match R with c1 :: c2 :: _ => k_sl c1 && k_sl c2 | _ => false end.
+
+(* a text with a scheme of its own that is not resolved against a base *)
+Definition k_absolute (sp : bool) (rest : list N) : N :=
+  if sp then k_special rest
+  else match rest with
+       | c1 :: r1 =>
+           if c1 =? 47 then
+             match r1 with
+             | c2 :: T => if c2 =? 47 then k_auth T else k_bad (k_path_ok false r1 [] [])
+             | [] => 0
+             end
+           else 0
+       | [] => 0
+       end.
+
+(* a text resolved against the base b (not file) *)
+Definition k_relative (sp : bool) (b : url) (rest : list N) : N :=
+  if k_cbb b then 0 else
+  match rest with
+  | [] => 0
+  | c :: r =>
+      if k_qh c then 0
+      else if sp then
+        (if k_sl c then
+           match r with
+           | c2 :: T => if k_sl c2 then k_special T else k_bad (k_path_ok true r [] [])
+           | [] => 0
+           end
+         else k_bad (k_path_ok true rest (k_base_stack b) []))
+      else
+        (if c =? 47 then
+           match r with
+           | c2 :: T => if c2 =? 47 then k_auth T else k_bad (k_path_ok false r [] [])
+           | [] => 0
+           end
+         else k_bad (k_path_ok false rest (k_base_stack b) []))
+  end.
+
+Definition k_bare_ref (rest : list N) : bool := match rest with [] => true | c :: _ => k_qh c end.
+
+(* 0 = not known; 1..4 = class *)
+Definition known_c01 (base : option url) (input : list N) : N :=
+  let t := cleaned input in
+  let sch := leading_scheme t in
+  let bscheme := match base with Some b => Some (b_scheme b) | None => None end in
+  let eff := match sch with Some s => s | None => match bscheme with Some s => s | None => [] end end in
+  let rest := match sch with Some _ => after_colon t | None => t end in
+  (* a scheme-less reference that is empty or starts with '?' / '#': resolved without the file states *)
+  let bare := match base, sch with Some _, None => k_bare_ref rest | _, _ => false end in
+  if (list_eqb eff s_file
+      || (match bscheme, sch with Some s, None => list_eqb s s_file | _, _ => false end)) && negb bare then 1
+  else
+    let sp := is_special_scheme_name eff in
+    match base, sch with
+    | None, None => 0
+    | None, Some _ => k_absolute sp rest
+    | Some b, None => k_relative sp b rest
+    | Some b, Some s =>
+        if sp && list_eqb s (b_scheme b) && negb (k_two_sl rest) then k_relative sp b rest
+        else k_absolute sp rest
+    end.
